@@ -203,13 +203,54 @@ func pct(r *vlib.Rng) float64 {
 }
 
 type genOpts struct {
-	leaf bool // leaf (hook) cases: more extreme values
+	leaf     bool // leaf (hook) cases: more extreme values
+	exact    bool // dyadic values only: the float32 computation stays exact, so the CSS equations can be evaluated on the output
+	boundary bool // boundary values: zeros, equal sums, huge negative margins, min > max, 0% / 100%
+	solid    bool // (documents) this box must not be collapsed through: give it a height
 }
 
-// one inline style; `small` biases toward values that switch collapsing on/off
+var boundaryLens = []float64{0, 0, 0, 1, 0.5, 2, 10, 100, 1000, 4000, 10000, 0.125}
+
+func exactMag(r *vlib.Rng, big bool) float64 {
+	switch r.Intn(5) {
+	case 0:
+		return float64(r.Range(0, 4))
+	case 1:
+		return float64(r.Range(1, 64))
+	case 2:
+		return float64(r.Range(1, 256)) / 4
+	case 3:
+		if big {
+			return float64(r.Range(8, 300)) * 4
+		}
+		return float64(r.Range(1, 40)) / 2
+	default:
+		return float64(r.Range(1, 24))
+	}
+}
+
+// one inline style
 func genStyle(r *vlib.Rng, o genOpts) string {
 	var sb strings.Builder
 	add := func(k, v string) { sb.WriteString(k + ":" + v + ";") }
+	mag := func(r *vlib.Rng, big bool) float64 {
+		if o.boundary {
+			return vlib.Pick(r, boundaryLens)
+		}
+		if o.exact {
+			return exactMag(r, big)
+		}
+		return mag(r, big)
+	}
+	pct := func(r *vlib.Rng) float64 {
+		if o.boundary {
+			return vlib.Pick(r, []float64{0, 0, 100, 50, 200, 1})
+		}
+		if o.exact {
+			return vlib.Pick(r, []float64{0, 25, 50, 50, 100, 12.5, 75})
+		}
+		return pct(r)
+	}
 	margin := func(side string, vertical bool) {
 		switch k := r.Intn(20); {
 		case k < 6: // initial (0)
@@ -265,10 +306,14 @@ func genStyle(r *vlib.Rng, o genOpts) string {
 	default:
 		add("width", "auto")
 	}
-	switch k := r.Intn(12); {
+	hk := r.Intn(12)
+	if o.solid && (hk < 6 || hk == 8 || hk == 11) {
+		hk = 10
+	}
+	switch k := hk; {
 	case k < 6: // auto
 	case k < 8:
-		add("height", num(mag(r, false))+"px")
+		add("height", num(mag(r, false)+1)+"px")
 	case k < 9:
 		add("height", "0")
 	case k < 10:
@@ -332,34 +377,92 @@ func genStyle(r *vlib.Rng, o genOpts) string {
 	return sb.String()
 }
 
-// nested <div>s: at most `budget` boxes, depth <= maxDepth
-func genDivs(r *vlib.Rng, depth int, budget *int, sb *strings.Builder) {
+// nested <div>s: at most `budget` boxes, depth <= 5 below <body>.
+// The first child of a box is usually given a height: a first child whose margins
+// collapse through it, under a parent without top border / padding, is the pattern of
+// the known finding C10/through-first-child; it is still generated, less often.
+func genDivs(r *vlib.Rng, depth int, budget *int, sb *strings.Builder, o genOpts) {
 	n := r.Range(0, 4)
 	if depth == 0 {
 		n = r.Range(1, 5)
 	}
 	for i := 0; i < n && *budget > 0; i++ {
 		*budget--
-		sb.WriteString(`<div style="` + genStyle(r, genOpts{}) + `">`)
+		oo := o
+		oo.solid = i == 0 && r.Chance(3, 4)
+		sb.WriteString(`<div style="` + genStyle(r, oo) + `">`)
 		if depth < 4 && r.Chance(3, 5) {
-			genDivs(r, depth+1, budget, sb)
+			genDivs(r, depth+1, budget, sb, o)
 		}
 		sb.WriteString("</div>")
 	}
 }
 
-func genDoc(r *vlib.Rng) string {
+func genDoc(r *vlib.Rng, o genOpts) string {
 	var sb strings.Builder
 	hs, bs := "", ""
 	if r.Chance(1, 3) {
-		hs = genStyle(r, genOpts{})
+		hs = genStyle(r, o)
 	}
 	if r.Chance(1, 2) {
-		bs = genStyle(r, genOpts{})
+		bs = genStyle(r, o)
 	}
 	sb.WriteString(`<html style="` + hs + `"><body style="` + bs + `">`)
 	budget := r.Range(1, 23)
-	genDivs(r, 0, &budget, &sb)
+	genDivs(r, 0, &budget, &sb, o)
+	sb.WriteString("</body></html>")
+	return sb.String()
+}
+
+// chains and ladders that exercise the adjoining-margins list specifically:
+// deep first-child / last-child chains, runs of empty siblings, with small integer margins
+func genChainDoc(r *vlib.Rng) string {
+	var sb strings.Builder
+	m := func() string {
+		v := r.Range(-12, 24)
+		if r.Chance(1, 4) {
+			v = 0
+		}
+		return strconv.Itoa(v) + "px"
+	}
+	box := func(extra string) string {
+		return `<div style="margin-top:` + m() + `;margin-bottom:` + m() + `;` + extra + `">`
+	}
+	extra := func(solid bool) string {
+		switch k := r.Intn(12); {
+		case solid || k < 3:
+			return "height:" + strconv.Itoa(r.Range(1, 30)) + "px;"
+		case k == 3:
+			return "border-top:" + strconv.Itoa(r.Range(1, 3)) + "px solid;"
+		case k == 4:
+			return "padding-bottom:" + strconv.Itoa(r.Range(1, 5)) + "px;"
+		case k == 5:
+			return "border-bottom:1px solid;"
+		case k == 6:
+			return "min-height:" + strconv.Itoa(r.Range(0, 6)) + "px;"
+		case k == 7:
+			return "height:0;"
+		case k == 8:
+			return "padding-top:" + strconv.Itoa(r.Range(1, 5)) + "px;"
+		default:
+			return ""
+		}
+	}
+	sb.WriteString("<html><body>")
+	budget := r.Range(3, 22)
+	var rec func(depth int)
+	rec = func(depth int) {
+		n := r.Range(1, 4)
+		for i := 0; i < n && budget > 0; i++ {
+			budget--
+			sb.WriteString(box(extra(i == 0 && r.Chance(2, 3))))
+			if depth < 4 && r.Chance(2, 3) {
+				rec(depth + 1)
+			}
+			sb.WriteString("</div>")
+		}
+	}
+	rec(0)
 	sb.WriteString("</body></html>")
 	return sb.String()
 }
@@ -538,6 +641,27 @@ func leafWidth(w *vlib.Writer, r *vlib.Rng) {
 	if r.Chance(1, 2) {
 		cbw = fl(r.Range(0, 2000))
 	}
+	if r.Chance(1, 5) { // boundary: the box exactly fills / just overflows the containing block
+		sum := f.PaddingLeft.V() + f.PaddingRight.V() + f.BorderLeftWidth.V() + f.BorderRightWidth.V() + f.Width.V() + f.MarginLeft.V() + f.MarginRight.V()
+		switch r.Intn(4) {
+		case 0:
+			cbw = sum
+		case 1:
+			cbw = fl(math.Nextafter32(float32(sum), float32(math.Inf(-1))))
+		case 2:
+			cbw = 0
+		default:
+			cbw = fl(math.Nextafter32(float32(sum), float32(math.Inf(1))))
+		}
+	}
+	switch r.Intn(12) {
+	case 0:
+		f.MaxWidth = f.MinWidth
+	case 1: // min > max
+		f.MinWidth, f.MaxWidth = rfl(r, false)+100, rfl(r, false)/4
+	case 2:
+		f.MaxWidth = fl(0)
+	}
 	mf := func(v pr.MaybeFloat) string { s, _ := coqMf(v); return s }
 	ex := func(v pr.MaybeFloat) string { s, _ := coqExt(v); return s }
 	in := fmt.Sprintf("(WIn %s %s %s %s %s %s %s %s %s %s)", q(f.PositionX), mf(f.MarginLeft), mf(f.MarginRight), mf(f.Width),
@@ -590,11 +714,11 @@ func leafCollapse(w *vlib.Writer, r *vlib.Rng) {
 
 // resolvePercentages on the boxes of a laid out document (their Style comes
 // from the real parser / cascade), against random containing blocks.
-func leafPercentages(w *vlib.Writer, r *vlib.Rng, n int) {
+func leafPercentages(w *vlib.Writer, r *vlib.Rng, n int, o genOpts) {
 	var sb strings.Builder
 	sb.WriteString("<html><body>")
 	for i := 0; i < n; i++ {
-		sb.WriteString(`<div style="` + genStyle(r, genOpts{leaf: true}) + `"></div>`)
+		sb.WriteString(`<div style="` + genStyle(r, o) + `"></div>`)
 	}
 	sb.WriteString("</body></html>")
 	pages, err := render.Layout(sb.String(), []string{pageCSS}, false, true, fonts)
@@ -689,20 +813,38 @@ func main() {
 		}
 	}
 
-	// budget: 1/4 documents (expensive on the model side), 3/4 leaf cases
-	nDocs := *n / 4
-	for i := 0; i < nDocs; i++ {
-		runDoc(w, genDoc(rng.Fork()), "doc")
+	// documents (expensive on the model side): 1/15 of the cases, in four streams
+	nDocs := *n / 15
+	if nDocs < 40 {
+		nDocs = *n / 4
 	}
+	for i := 0; i < nDocs; i++ {
+		r := rng.Fork()
+		switch i % 8 {
+		case 0, 1, 2:
+			runDoc(w, genDoc(r, genOpts{}), "doc")
+		case 3, 4:
+			runDoc(w, genDoc(r, genOpts{exact: true}), "doc-exact")
+		case 5, 6:
+			runDoc(w, genChainDoc(r), "doc-chain")
+		default:
+			runDoc(w, genDoc(r, genOpts{boundary: true}), "doc-boundary")
+		}
+	}
+	// leaf cases through the hooks
 	for w.N() < *n {
 		r := rng.Fork()
-		switch k := r.Intn(10); {
-		case k < 5:
+		switch k := r.Intn(20); {
+		case k < 11:
 			leafWidth(w, r)
-		case k < 7:
+		case k < 14:
 			leafCollapse(w, r)
 		default:
-			leafPercentages(w, r, 20)
+			o := genOpts{leaf: true}
+			if r.Chance(1, 4) {
+				o.boundary = true
+			}
+			leafPercentages(w, r, 6, o)
 		}
 	}
 }
